@@ -580,11 +580,11 @@ class SeqRecord(object):
                  annotations=None, letter_annotations=None):
         if seq is not None and not isinstance(seq, (Seq, MutableSeq)):
             raise TypeError("seq argument should be a Seq or MutableSeq object")
-        if id is not None and not isinstance(id, str):
+        if id is not None and not isinstance(id, (str, SSeq)):
             raise TypeError("id argument should be a string")
-        if not isinstance(name, str):
+        if not isinstance(name, (str, SSeq)):
             raise TypeError("name argument should be a string")
-        if not isinstance(description, str):
+        if not isinstance(description, (str, SSeq)):
             raise TypeError("description argument should be a string")
         self._seq = seq
         self.id = id
